@@ -880,8 +880,9 @@ def _check_island_can_sleep(
   island_id = tree_island_in[worldid, treeid]
   if island_id >= 0 and island_id < nisland:
     as_val = tree_asleep_in[worldid, treeid]
-    if as_val < -1:
-      # Not ready to sleep yet
+    if as_val < -1 or as_val >= 0:
+      # Not ready to sleep yet, or already asleep: a sleeping tree keeps the cycle it was put to sleep with
+      # (rows that persist while asleep, e.g. friction loss, would otherwise re-link a part of that cycle)
       wp.atomic_min(island_can_sleep_out, worldid, island_id, 0)
 
 
